@@ -749,7 +749,10 @@ async def part_e(loop: vloop.VirtualLoop, ctx) -> None:
                 {**witness, "missing": [w for w in want if w not in have][:4], "restored": len(have), "expected": len(want)},
             )
         for u in loop.unhandled[before:]:  # (a full gateway: what its devices do with a delivered message is not the receive path)
-            if u.get("where") and u["where"].split(":")[0] in TX_FILES:
+            fn = (u.get("where") or ":").split(":")[1]
+            if u.get("where") and u["where"].split(":")[0] in TX_FILES and "send" not in fn and "write" not in fn:
+                # (a device that tries to *send* because of a restored packet while the engine is paused, and whose
+                #  fire-and-forget task fails, is not the receive path either)
                 ctx.violate(f"C01|loop-exception|{u['type']}|{u['where']}", "an exception from the receive path reached the event-loop exception handler", {**u, "odd_stamp": stamp_kind})
             else:
                 ctx.count("restore.device_level_exceptions_not_judged")
